@@ -150,7 +150,7 @@ func runStatus(t *testing.T, sh statusShape, id, tag string) *statusCase {
 	cl.Wipe()
 	hub := newScriptHub(cl)
 	pod := "p" + tag
-	cl.AddPod(pod)
+	addPod(cl, pod)
 	strip := func(s string) string { return strings.TrimSuffix(s, tag) }
 	nodes := []string{}
 	for _, n := range nodeNames(sh.Nodes) {
